@@ -1835,7 +1835,7 @@ def resolve_const_item(facts, e, depth=3):
     """a named constant whose initialiser is itself an expression over other constants (`const GATE: f32 =
     CHI2INV95[4];`) -> that expression; anything else is returned unchanged"""
     for _ in range(depth):
-        if e.kind != 'const' or not e.const.get('item') or e.proj:
+        if e.kind != 'const' or not e.const.get('item'):
             return e
         bs = facts.get(norm(e.const['item']))
         if len(bs) != 1 or not str(bs[0].kind).startswith('Const'):
@@ -1843,6 +1843,19 @@ def resolve_const_item(facts, e, depth=3):
         r = ExprBuilder(bs[0]).place(0, ())
         if r.kind == 'unknown' or repr(r) == repr(e):
             return e
+        if e.proj and r.kind == 'call':
+            # `const GATE: Gate = Gate::new(CHI2INV95[4])`: a const constructor is looked through
+            r = expand_calls(facts, r)
+        if e.proj:
+            # a component of a structured constant (`GATE.0` of `const GATE: Gate = Gate(CHI2INV95[4])`): only a
+            # struct / tuple initialiser can be projected; an index into a table constant stays as it is
+            if r.kind != 'agg' or not all(str(q).isdigit() or str(q) in ((r.extra or {}).get('fields') or [])
+                                          for q in e.proj[:1]):
+                return e
+            r2 = project_expr(r, tuple(str(q) for q in e.proj))
+            if r2 is r or repr(r2) == repr(e):
+                return e
+            r = r2
         e = r
     return e
 
